@@ -83,4 +83,6 @@ package edns
 //@   assert at store dns.OPT.Option#3: !w.noedns && forall i int :: {value[i]} 0 <= i && i < len(value) ==> !dyntype(value[i], *dns.EDNS0_SUBNET) && !dyntype(value[i], *dns.EDNS0_TCP_KEEPALIVE)
 //@   assert at store dns.OPT.Option#4: w.keepalive && forall i int :: {value[i]} 0 <= i && i < len(value) ==> !dyntype(value[i], *dns.EDNS0_SUBNET)
 //@   assert at call middleware/edns.stripECS#1: calls("middleware/edns.stripKeepalive") == 0
+//@   # both strips run on EVERY reply that carries an OPT, whatever the client asked for
+//@   assert at call (middleware.ResponseWriter).WriteMsg#1: !old(w.noedns) ==> calls("middleware/edns.stripECS") == 1 && calls("middleware/edns.stripKeepalive") == 1
 //@   assert at call (middleware.ResponseWriter).WriteMsg#1: w.noedns ==> forall i int :: {arg1.Extra[i]} 0 <= i && i < len(arg1.Extra) ==> !dyntype(arg1.Extra[i], *dns.OPT)
